@@ -243,14 +243,14 @@ func (pr *ProfileReader) readTagTable(tagTable *TagTable) error {
 	tagDataOffset := tagTableOffset + 4 + (tagCount * 12)
 	var tagData []byte
 	if endOfTagData > tagDataOffset {
-		tagData = make([]byte, endOfTagData-tagDataOffset)
-	}
-	bytesRead, err := io.ReadFull(pr.reader, tagData)
-	if err == io.ErrUnexpectedEOF {
-		return fmt.Errorf("expected %d bytes of tag data but only got %d", len(tagData), bytesRead)
-	}
-	if err != nil {
-		return err
+		tagDataLength := endOfTagData - tagDataOffset
+		tagData, err = binary.ReadBytes(pr.reader, tagDataLength)
+		if err == io.ErrUnexpectedEOF {
+			return fmt.Errorf("expected %d bytes of tag data but only got %d", tagDataLength, len(tagData))
+		}
+		if err != nil {
+			return err
+		}
 	}
 
 	for sig, entry := range tagIndex {
